@@ -204,6 +204,7 @@ func runScenario(t *testing.T, rec *sim.Recorder, sc Scenario) {
 		}
 		rec.Ev("close_call", "holding", holding)
 		start := time.Now()
+		slept0 := slowSleptMs.Load()
 		done := make(chan struct{})
 		go func() {
 			if sc.BlockReb && holding {
@@ -215,7 +216,7 @@ func runScenario(t *testing.T, rec *sim.Recorder, sc Scenario) {
 		}()
 		select {
 		case <-done:
-			rec.Ev("close_ret", "ms", time.Since(start).Milliseconds())
+			rec.Ev("close_ret", "ms", time.Since(start).Milliseconds(), "user_ms", slowSleptMs.Load()-slept0)
 		case <-time.After(10 * time.Minute):
 			rec.Ev("close_stuck", "ms", time.Since(start).Milliseconds())
 		}
